@@ -27,9 +27,14 @@ CONSTANTS
                  \*   "slash" (route_prefix with a "/": TypeError), "unknown-policy" (ValueError),
                  \*   "bad-keyword" (misspelt policy argument: TypeError)
     MaxRules, MaxStatus, MaxRuns, MaxRejected,
+    MaxReent,    \* 0: startTestRun / stopTestRun are one atomic action each (the instances of rounds 1-7);
+                 \* > 0: they are modelled at the grain of the code - a loop over the LIVE _sinks list
+                 \*      (BeginStart / StartSink / EndStart, BeginStop / StopSink / EndStop) - and a sink that has just
+                 \*      been given startTestRun / stopTestRun may re-entrantly call add_rule (ReAdd), at most MaxReent times
     RulesInRun,  \* FALSE: this instance adds rules only outside a run (keeps routing-only instances small)
     Export,      \* TRUE: keep the action log `hist`
-    Variant      \* "asRequired" | "asCoded" (add_rule in a run starts the sink whatever do_start_stop_run says)
+    Variant      \* "snapshot" (the start / stop loops run over a copy of _sinks taken when the loop begins) |
+                 \* "asRequired" | "asCoded" (add_rule in a run starts the sink whatever do_start_stop_run says)
                  \* | "registerFirst" (add_rule registers / starts the sink before the policy validates the rule)
 
 None == "none"
@@ -45,11 +50,20 @@ VARIABLES
     startStop,   \* set of sinks that get startTestRun / stopTestRun         (_sinks)
     inRun,       \* _in_run
     runs, nrules, nstatus, nrej,
+    sinkList,    \* _sinks as the list it is (order of registration); startStop is its range
+    phase,       \* "idle" | "starting" | "stopping": inside the router's own startTestRun / stopTestRun loop
+    pos,         \* number of list entries the running loop has visited
+    lim,         \* Variant "snapshot" only: length of the list when the loop began
+    nre,         \* re-entrant add_rule calls so far
+    done,        \* history: number of runs whose stopTestRun has returned
+    regAt,       \* history: sink -> value of `done` when it was registered for start/stop
     calls,       \* history: [a, r, e, raised]                               (for the meaning)
     logs,        \* sink -> Seq of [a, ci, route, id, rest]
     hist
 
-vars == <<fallback, fbss, prefixRules, idRules, startStop, inRun, runs, nrules, nstatus, nrej, calls, logs, hist>>
+loopVars == <<sinkList, phase, pos, lim, nre>>
+vars == <<fallback, fbss, prefixRules, idRules, startStop, inRun, runs, nrules, nstatus, nrej, calls, logs, hist,
+          sinkList, phase, pos, lim, nre, done, regAt>>
 
 -----------------------------------------------------------------------------
 \* StreamToQueue.route_code: push a code in front of the route code
@@ -76,19 +90,19 @@ Init ==
     /\ (fallback = None => fbss)          \* without a fallback the argument has no effect: one representative
     /\ prefixRules = <<>> /\ idRules = <<>>
     /\ startStop = IF fbss /\ fallback # None THEN {fallback} ELSE {}
+    /\ sinkList = IF fbss /\ fallback # None THEN <<fallback>> ELSE <<>>
+    /\ phase = "idle" /\ pos = 0 /\ lim = 0 /\ nre = 0 /\ done = 0
+    /\ regAt = [s \in AllSinks |-> 0]
     /\ inRun = FALSE /\ runs = 0 /\ nrules = 0 /\ nstatus = 0 /\ nrej = 0
     /\ calls = <<>> /\ hist = <<>>
     /\ logs = [s \in AllSinks |-> <<>>]
 
 \* add_rule(sink, policy, do_start_stop_run, **policy_args)   (real.py:578-617)
-AddRule(r) ==
-    /\ nrules < MaxRules
-    /\ inRun \/ runs < MaxRuns                       \* nothing observable after the last run
-    /\ RulesInRun \/ ~inRun
+\* the body of add_rule, shared by the top-level call (AddRule) and the re-entrant one (ReAdd)
+DoAddRule(r) ==
     /\ IF r.kind = "prefix" THEN r.key \notin DOMAIN prefixRules ELSE r.key \notin DOMAIN idRules
                                                      \* two rules for one key are ambiguous (undefined by the docs)
     /\ r.dss => r.sink \notin startStop              \* a sink is registered for start/stop at most once
-    /\ nrules' = nrules + 1
     /\ IF r.kind = "prefix"
        THEN /\ prefixRules' = [k \in DOMAIN prefixRules \cup {r.key} |->
                                  IF k = r.key THEN [sink |-> r.sink, consume |-> r.consume] ELSE prefixRules[k]]
@@ -96,10 +110,32 @@ AddRule(r) ==
        ELSE /\ idRules' = [k \in DOMAIN idRules \cup {r.key} |-> IF k = r.key THEN r.sink ELSE idRules[k]]
             /\ UNCHANGED prefixRules
     /\ startStop' = IF r.dss THEN startStop \cup {r.sink} ELSE startStop
+    /\ sinkList' = IF r.dss THEN Append(sinkList, r.sink) ELSE sinkList
+    /\ regAt' = IF r.dss THEN [regAt EXCEPT ![r.sink] = done] ELSE regAt
     /\ logs' = IF inRun /\ (r.dss \/ Variant = "asCoded")
                THEN Give(logs, {r.sink}, "startTestRun") ELSE logs
+
+AddRule(r) ==
+    /\ phase = "idle"
+    /\ nrules < MaxRules
+    /\ inRun \/ runs < MaxRuns                       \* nothing observable after the last run
+    /\ RulesInRun \/ ~inRun
+    /\ DoAddRule(r)
+    /\ nrules' = nrules + 1
     /\ Log("addRule", r, NoEvent, FALSE, NoInfo)
-    /\ UNCHANGED <<fallback, fbss, inRun, runs, nstatus, nrej>>
+    /\ UNCHANGED <<fallback, fbss, inRun, runs, nstatus, nrej, phase, pos, lim, nre, done>>
+
+\* a sink that the running loop has just given startTestRun / stopTestRun calls router.add_rule(...) from inside
+\* that method.  The code: during the start loop _in_run is still False (the new sink is NOT started by add_rule;
+\* the loop over the live list reaches it), during the stop loop _in_run is still True (add_rule starts it at
+\* once; the loop over the live list then stops it).
+ReAdd(r) ==
+    /\ phase # "idle" /\ pos >= 1
+    /\ nre < MaxReent
+    /\ DoAddRule(r)
+    /\ nre' = nre + 1
+    /\ Log("reAdd", r, NoEvent, FALSE, NoInfo)
+    /\ UNCHANGED <<fallback, fbss, inRun, runs, nrules, nstatus, nrej, phase, pos, lim, done>>
 
 \* add_rule(...) with arguments the router must reject: the call raises (unknown policy: ValueError before
 \* anything else; "/" in route_prefix or a misspelt policy keyword: TypeError from the policy method) and NOTHING
@@ -107,32 +143,89 @@ AddRule(r) ==
 \* is an ordinary AddRule.  (Variant "registerFirst": the sink is registered / started before the policy method
 \* gets to validate, real.py add_rule with the two statements swapped.)
 AddRuleRejected(b) ==
+    /\ phase = "idle"
     /\ nrej < MaxRejected
     /\ inRun \/ runs < MaxRuns
     /\ nrej' = nrej + 1
     /\ LET early == Variant = "registerFirst" /\ b.dss /\ b.why # "unknown-policy" IN
        /\ startStop' = IF early THEN startStop \cup {b.sink} ELSE startStop
+       /\ sinkList' = IF early THEN Append(sinkList, b.sink) ELSE sinkList
+       /\ regAt' = IF early THEN [regAt EXCEPT ![b.sink] = done] ELSE regAt
        /\ logs' = IF early /\ inRun THEN Give(logs, {b.sink}, "startTestRun") ELSE logs
     /\ Log("addRuleRejected", [kind |-> b.why, key |-> None, sink |-> b.sink, consume |-> FALSE, dss |-> b.dss],
            NoEvent, TRUE, NoInfo)
-    /\ UNCHANGED <<fallback, fbss, prefixRules, idRules, inRun, runs, nrules, nstatus>>
+    /\ UNCHANGED <<fallback, fbss, prefixRules, idRules, inRun, runs, nrules, nstatus, phase, pos, lim, nre, done>>
 
 StartTestRun ==
+    /\ MaxReent = 0
     /\ ~inRun /\ runs < MaxRuns
     /\ inRun' = TRUE /\ runs' = runs + 1
     /\ logs' = Give(logs, startStop, "startTestRun")
     /\ Log("startTestRun", NoRule, NoEvent, FALSE, NoInfo)
-    /\ UNCHANGED <<fallback, fbss, prefixRules, idRules, startStop, nrules, nstatus, nrej>>
+    /\ UNCHANGED <<fallback, fbss, prefixRules, idRules, startStop, nrules, nstatus, nrej, loopVars, done, regAt>>
 
 StopTestRun ==
+    /\ MaxReent = 0
     /\ inRun
-    /\ inRun' = FALSE
+    /\ inRun' = FALSE /\ done' = done + 1
     /\ logs' = Give(logs, startStop, "stopTestRun")
     /\ Log("stopTestRun", NoRule, NoEvent, FALSE, NoInfo)
-    /\ UNCHANGED <<fallback, fbss, prefixRules, idRules, startStop, runs, nrules, nstatus, nrej>>
+    /\ UNCHANGED <<fallback, fbss, prefixRules, idRules, startStop, runs, nrules, nstatus, nrej, loopVars, regAt>>
+
+\* ---- startTestRun / stopTestRun at the grain of the code (real.py:547-557): `for sink in self._sinks:` over the
+\* live list (a Python list iterator re-reads the length at every step, so entries appended meanwhile are visited),
+\* then the _in_run assignment.
+SinkOnly(s) == [NoRule EXCEPT !.sink = s]
+LoopEnd == IF Variant = "snapshot" THEN lim ELSE Len(sinkList)
+LoopKeep == <<fallback, fbss, prefixRules, idRules, startStop, sinkList, nrules, nstatus, nrej, nre, regAt>>
+
+BeginStart ==
+    /\ MaxReent > 0 /\ phase = "idle"
+    /\ ~inRun /\ runs < MaxRuns
+    /\ phase' = "starting" /\ pos' = 0 /\ lim' = Len(sinkList) /\ runs' = runs + 1
+    /\ logs' = logs
+    /\ Log("beginStart", NoRule, NoEvent, FALSE, NoInfo)
+    /\ UNCHANGED <<LoopKeep, inRun, done>>
+
+StartSink ==
+    /\ phase = "starting" /\ pos < LoopEnd
+    /\ pos' = pos + 1
+    /\ logs' = Give(logs, {sinkList[pos + 1]}, "startTestRun")
+    /\ Log("startSink", SinkOnly(sinkList[pos + 1]), NoEvent, FALSE, NoInfo)
+    /\ UNCHANGED <<LoopKeep, inRun, runs, phase, lim, done>>
+
+EndStart ==
+    /\ phase = "starting" /\ pos = LoopEnd
+    /\ phase' = "idle" /\ inRun' = TRUE
+    /\ logs' = logs
+    /\ Log("endStart", NoRule, NoEvent, FALSE, NoInfo)
+    /\ UNCHANGED <<LoopKeep, runs, pos, lim, done>>
+
+BeginStop ==
+    /\ MaxReent > 0 /\ phase = "idle"
+    /\ inRun
+    /\ phase' = "stopping" /\ pos' = 0 /\ lim' = Len(sinkList)
+    /\ logs' = logs
+    /\ Log("beginStop", NoRule, NoEvent, FALSE, NoInfo)
+    /\ UNCHANGED <<LoopKeep, inRun, runs, done>>
+
+StopSink ==
+    /\ phase = "stopping" /\ pos < LoopEnd
+    /\ pos' = pos + 1
+    /\ logs' = Give(logs, {sinkList[pos + 1]}, "stopTestRun")
+    /\ Log("stopSink", SinkOnly(sinkList[pos + 1]), NoEvent, FALSE, NoInfo)
+    /\ UNCHANGED <<LoopKeep, inRun, runs, phase, lim, done>>
+
+EndStop ==
+    /\ phase = "stopping" /\ pos = LoopEnd
+    /\ phase' = "idle" /\ inRun' = FALSE /\ done' = done + 1
+    /\ logs' = logs
+    /\ Log("endStop", NoRule, NoEvent, FALSE, NoInfo)
+    /\ UNCHANGED <<LoopKeep, runs, pos, lim>>
 
 \* status(**kwargs)   (real.py:558-576), fed with the event that left the StreamToQueue chain e.via
 Status(e) ==
+    /\ phase = "idle"
     /\ inRun /\ nstatus < MaxStatus
     /\ nstatus' = nstatus + 1
     /\ LET route  == Full(e)
@@ -150,10 +243,11 @@ Status(e) ==
                /\ Log("status", NoRule, e, TRUE, info)
           ELSE /\ logs' = [logs EXCEPT ![target] = Append(@, Entry("status", out, e.id, e.rest))]
                /\ Log("status", NoRule, e, FALSE, info)
-    /\ UNCHANGED <<fallback, fbss, prefixRules, idRules, startStop, inRun, runs, nrules, nrej>>
+    /\ UNCHANGED <<fallback, fbss, prefixRules, idRules, startStop, inRun, runs, nrules, nrej, loopVars, done, regAt>>
 
 Next == StartTestRun \/ StopTestRun \/ (\E r \in Rules : AddRule(r)) \/ (\E e \in Events : Status(e))
         \/ (\E b \in BadRules : AddRuleRejected(b))
+        \/ BeginStart \/ StartSink \/ EndStart \/ BeginStop \/ StopSink \/ EndStop \/ (\E r \in Rules : ReAdd(r))
 
 Spec == Init /\ [][Next]_vars
 
@@ -224,8 +318,24 @@ StartStopExact ==
         /\ Seen(s, "stopTestRun") = SortedSeq(StopsDue(s))
         /\ ~inRun => Len(Seen(s, "startTestRun")) = Len(Seen(s, "stopTestRun"))
 
+\* The same clause at the grain of the loops, written over what each sink RECEIVED (its log) and the two history
+\* counters only: a sink registered for start/stop sees startTestRun, stopTestRun, startTestRun, ... strictly
+\* alternating, beginning with a start (never a stop without a start before it, never two starts in a row); whenever
+\* the router is outside its own startTestRun / stopTestRun it has seen one start (and, out of a run, one stop) for
+\* every run that had not yet finished stopping when it was registered - "once per run", with the start caught up
+\* for a sink registered while the run is under way; a sink never registered sees neither.
+SS(s) == LET q == SelectSeq(logs[s], LAMBDA en : en.a \in {"startTestRun", "stopTestRun"}) IN [j \in DOMAIN q |-> q[j].a]
+StartStopBalanced ==
+    \A s \in AllSinks :
+        LET ev == SS(s) IN
+        /\ s \notin startStop => ev = <<>>
+        /\ \A j \in DOMAIN ev : ev[j] = IF j % 2 = 1 THEN "startTestRun" ELSE "stopTestRun"
+        /\ (s \in startStop /\ phase = "idle") =>
+               Len(ev) = 2 * (done - regAt[s]) + (IF inRun THEN 1 ELSE 0)
+
 -----------------------------------------------------------------------------
-Terminal == ~inRun /\ runs = MaxRuns
+Terminal == ~inRun /\ runs = MaxRuns /\ phase = "idle"
 ExportC == Terminal => PrintT(<<"EXPORT", ToJson([fallback |-> fallback, fbss |-> fbss, hist |-> hist])>>)
-ViewNoHist == <<fallback, fbss, prefixRules, idRules, startStop, inRun, runs, nrules, nstatus, nrej, calls, logs>>
+ViewNoHist == <<fallback, fbss, prefixRules, idRules, startStop, inRun, runs, nrules, nstatus, nrej, calls, logs,
+                sinkList, phase, pos, lim, nre, done, regAt>>
 =============================================================================
